@@ -59,3 +59,26 @@ Example C06_nonvacuous :
   let s := run (fuel_of g1) g1 None 1000 (init 0%nat) in
   map (poids s) [0;1;2;3;4]%nat = [Some 0; Some 0; Some 5; Some 5; None].
 Proof. vm_compute. reflexivity. Qed.
+
+(* The queue of the search (utils.priority_dict: a dict plus a heap with lazy deletion; heapq abstracted to its contract - heappop
+   removes a least element, heappush / heapify keep the multiset).  Invariant: every live (priority, key) pair has an entry in the heap;
+   it is established by a rebuild, kept by an insertion / re-prioritisation, and under it pop_smallest returns a live key of least
+   (priority, key), always succeeds on a non-empty queue and keeps the invariant - the "extract-min" step the theorems above rely on. *)
+From TL Require Proofs.PrioDict.
+Theorem C06_queue_pop_is_least (P : Type) (ple : P -> P -> bool) :
+  (forall a b, ple a b = true \/ ple b a = true) -> (forall a b c, ple a b = true -> ple b c = true -> ple a c = true) ->
+  forall d h k h', PrioDict.Inv P d h -> PrioDict.pops P ple d h k h' ->
+  (exists v, PrioDict.lookup P d k = Some v /\ forall k2 v2, PrioDict.lookup P d k2 = Some v2 -> PrioDict.ent_le P ple (v, k) (v2, k2) = true)
+  /\ PrioDict.Inv P (PrioDict.del P d k) h'.
+Proof. exact (PrioDict.pops_spec P ple). Qed.
+Print Assumptions C06_queue_pop_is_least.
+Theorem C06_queue_pop_total (P : Type) (ple : P -> P -> bool) :
+  (forall a b, ple a b = true \/ ple b a = true) -> (forall a b c, ple a b = true -> ple b c = true -> ple a c = true) ->
+  forall d h, PrioDict.Inv P d h -> d <> nil -> exists k h', PrioDict.pops P ple d h k h'.
+Proof. exact (PrioDict.pops_total P ple). Qed.
+Print Assumptions C06_queue_pop_total.
+Theorem C06_queue_set_keeps (P : Type) d h k v : PrioDict.Inv P d h -> PrioDict.Inv P (PrioDict.set P d k v) ((v, k) :: h)%list.
+Proof. exact (PrioDict.inv_push P d h k v). Qed.
+Theorem C06_queue_rebuild (P : Type) d : PrioDict.Inv P d (PrioDict.items_heap P d).
+Proof. exact (PrioDict.inv_rebuild P d). Qed.
+Print Assumptions C06_queue_set_keeps.
